@@ -64,6 +64,11 @@ pub fn universe(name: &str) -> Vec<Key> {
             v.push(util::flip_bit(&base, 7));
             v
         }
+        // SP — the sparse 12-bit cluster of seeds `sp18` / `sp19` (keys K(i) = prefix·0·i₅ and the
+        // lone leaf L = prefix·1·0…): L, three absent keys sharing 14, 16 and 18 bits with L (a new
+        // chain with terminator siblings inside the depth-2 page / reaching the depth-3 page), two
+        // absent fillers K(30), K(31) and the present K(0), K(1)
+        "SP" => vec![sp_key("1"), sp_key("101"), sp_key("10001"), sp_key("1000001"), sp_k(30), sp_k(31), sp_k(0), sp_k(1)],
         // four keys, for exhaustive single-batch enumeration
         "U4" => {
             let base = key_from_bits("1010010110", false);
@@ -213,6 +218,19 @@ pub fn universe(name: &str) -> Vec<Key> {
     }
 }
 
+/// Key of the sparse cluster: the 12-bit cluster prefix followed by `suffix`, then zeros.
+pub fn sp_key(suffix: &str) -> Key {
+    let mut k = key_from_bits(&format!("110100101101{suffix}"), false);
+    k[31] = 0x5a;
+    k
+}
+
+/// K(i) of the sparse cluster: prefix, a zero bit, then `i` in five bits (bits 13..17).
+pub fn sp_k(i: u32) -> Key {
+    let bits: String = (0..5).rev().map(|b| if (i >> b) & 1 == 1 { '1' } else { '0' }).collect();
+    sp_key(&format!("0{bits}"))
+}
+
 /// Key sharing a fixed `p`-bit prefix, then `i` in the following 8 bits, then zeros except a tail
 /// marker so that keys are not all-zero.
 pub fn cluster_key(p: usize, i: u32) -> Key {
@@ -274,6 +292,15 @@ pub fn seed_keys(name: &str) -> Vec<Key> {
         "ab20" => {
             let mut v: Vec<Key> = (0..20).map(|i| cluster_key(12, i)).collect();
             v.extend((0..20).map(|i| util::flip_bit(&cluster_key(12, i), 0)));
+            v.sort();
+            v
+        }
+        // a sparse cluster under one 12-bit prefix: 17 (18) keys K(i) with bit 12 clear, spread over
+        // bits 13..17, and one lone leaf L with bit 12 set — 18 (19) leaves, the depth-2 page elided
+        "sp18" | "sp19" => {
+            let n = if name == "sp18" { 17 } else { 18 };
+            let mut v: Vec<Key> = (0..n).map(sp_k).collect();
+            v.push(sp_key("1"));
             v.sort();
             v
         }
@@ -1694,6 +1721,21 @@ pub fn add_quiet(cases: &mut Vec<Value>, every: usize) {
 /// run cut short by its wall-clock budget loses the tail of the largest family and nothing else.
 /// Copies of every `every`-th history case run on the adversarial device (completions of a burst
 /// of I/O delivered newest first).
+/// Every `every`-th history once more with the page pool handing out buffers filled with `byte`
+/// ("the contents of the page are undefined").
+pub fn add_pool_poison(cases: &mut Vec<Value>, every: usize, byte: u8) {
+    let mut extra = vec![];
+    for (i, c) in cases.iter().enumerate() {
+        if i % every != 0 || c.get("ops").is_none() || c.get("cfg").is_none() {
+            continue;
+        }
+        let mut n = c.clone();
+        n["cfg"]["pool_poison"] = json!(byte);
+        extra.push(n);
+    }
+    cases.extend(extra);
+}
+
 pub fn add_io_reverse(cases: &mut Vec<Value>, every: usize) {
     let mut extra = vec![];
     for (i, c) in cases.iter().enumerate() {
